@@ -675,7 +675,10 @@ class WebSocketResponse(StreamResponse, Generic[_DecodeText]):
                     # likely result writing to a broken pipe.
                     await self.close(drain=False)
             elif msg.type is WSMsgType.CLOSING:
-                self._set_closing(WSCloseCode.OK)
+                # Woken up by close() in another task: it goes on with the
+                # handshake, the peer's CLOSE has not been received yet.
+                if not self._closed:
+                    self._set_closing(WSCloseCode.OK)
             elif msg.type is WSMsgType.PING and self._autoping:
                 await self.pong(msg.data)
                 continue
